@@ -73,6 +73,13 @@ func c17Files() [][]rdbgen.Item {
 			// expiry written in seconds (old Redis versions, other writers)
 			opts = rdbgen.KeyOpts{ExpKind: "s", ExpAt: 4102444800 + uint64(i)}
 		}
+		switch i % 7 {
+		case 2:
+			// written by a server with an LFU / LRU maxmemory policy
+			opts.HasFreq, opts.Freq = true, uint8(37*i)
+		case 5:
+			opts.HasIdle, opts.Idle = true, uint64(1000+i)
+		}
 		cur = append(cur, rdbgen.Key(rdbgen.RawStr(name, rdbgen.LCanon), v, opts))
 		if i%5 == 4 {
 			cur = append(cur, rdbgen.SelectDB(uint32(i%7), rdbgen.LCanon))
